@@ -476,6 +476,20 @@ fn main() {
                     }
                 }
             }
+            // the same library call in a process of its own (`gv run`): what was evaluated earlier in this
+            // process must not matter
+            let me = std::env::current_exe().unwrap();
+            for (j, (rp, dp)) in files.iter().enumerate() {
+                for (k, verbose) in [(0usize, "0"), (1usize, "1")] {
+                    if let Ok(o) = std::process::Command::new(&me).args(["run-raw", "--rules", rp, "--data", dp, "--verbose", verbose]).output() {
+                        let text = String::from_utf8_lossy(&o.stdout).to_string();
+                        let mut ls: Vec<&str> = text.lines().collect();
+                        ls.sort();
+                        res[j][k].push(json!({"exit": 0, "out": gv::xform::digest(&text), "lines": gv::xform::digest(&ls.join("\n")),
+                                              "err": "", "elines": "", "fresh_process": true}));
+                    }
+                }
+            }
             for (rp, dp) in &files {
                 let _ = std::fs::remove_file(rp);
                 let _ = std::fs::remove_file(dp);
@@ -753,9 +767,18 @@ fn main() {
                 let l = l.unwrap();
                 if l.trim().is_empty() { continue; }
                 let j: J = serde_json::from_str(&l).unwrap();
-                let rules = if j["prog"].is_null() { J::Null } else { json!(render::render_file(&j["prog"])) };
+                // an optional "style" (as printed by MC_Syntax, plus "bare") selects the spelling; "bare_ok"
+                // tells whether the first rule could be written as bare clauses
+                let rules = if j["prog"].is_null() {
+                    J::Null
+                } else if j["style"].is_object() {
+                    json!(render::render_file_with(&j["prog"], &render::Style::from_json(&j["style"])))
+                } else {
+                    json!(render::render_file(&j["prog"]))
+                };
                 let data = if j["doc"].is_null() { J::Null } else { json!(val::to_json_text(&j["doc"])) };
-                println!("{}", json!({"rules": rules, "data": data}));
+                let bare_ok = !j["prog"].is_null() && gv::xform::bare_ok(&j["prog"]["rules"][0]);
+                println!("{}", json!({"rules": rules, "data": data, "bare_ok": bare_ok}));
             }
         }
         "gen" => {
@@ -895,6 +918,18 @@ fn main() {
                 }
             }
             println!("{}", json!({"cases": cases.len(), "evaluations": evals, "direct_relations": direct, "mismatches": nm}));
+        }
+        "run-raw" => {
+            // one library call, printed the way repeat-lib digests it
+            let rules = std::fs::read_to_string(m.get("rules").expect("--rules")).unwrap();
+            let data = std::fs::read_to_string(m.get("data").expect("--data")).unwrap();
+            let verbose = m.get("verbose").map(|v| v == "1").unwrap_or(false);
+            let t = match exec::run_checks_raw(&rules, &data, verbose) {
+                Ok(Ok(s)) => format!("ok:{}", s),
+                Ok(Err(e)) => format!("err:{}", e),
+                Err(p) => format!("panic:{}", p),
+            };
+            print!("{}", t);
         }
         "run" => {
             let rules = std::fs::read_to_string(m.get("rules").expect("--rules")).unwrap();
